@@ -1152,4 +1152,21 @@ def loaderOf (ext : Str) : Option Fmt :=
 def loadContent (expand : Str → Str) (useEnv : Bool) (content : Str) : Str :=
   if useEnv then expand content else content
 
+/-! ### the option LIST of the mapping entry points
+
+`mapping.UnmarshalJsonBytes(content, v, opts...)`: `getJsonUnmarshaler` builds `NewUnmarshaler(jsonTagKey, opts...)`, which
+applies every option in order to a zero `unmarshalOptions` record (Tie `tie_mNewUnmarshaler`, `tie_opt*`); each `With…`
+sets one flag.  The caller may pass any list: any length, order, repetitions. -/
+inductive MOpt where
+  | canonLower | stringValues | fromArray | opaqueKeys
+  deriving DecidableEq, Repr
+
+def MOpt.apply (o : Opts) : MOpt → Opts
+  | .canonLower => { o with canon := true }
+  | .stringValues => { o with fromString := true }
+  | .fromArray => { o with fromArray := true }
+  | .opaqueKeys => { o with opaqueKeys := true }
+
+def applyMOpts (base : Opts) (l : List MOpt) : Opts := l.foldl MOpt.apply base
+
 end GoZero.C17
